@@ -69,6 +69,10 @@ def order_predicate(case, impl, j):
                     buys = [g[0] for g in mine if fr(g[3]) >= 0]
                     if [g[0] for g in mine] != sells + buys or sells != sorted(sells) or buys != sorted(buys):
                         out.append('%s: portfolio %s fill order %s is not sells-first / submission order' % (w, pid, [(g[0], g[3]) for g in mine]))
+                # ... and over the whole update (all portfolios): no buy is filled before a sell
+                sides = [fr(g[3]) < 0 for g in got]
+                if any((not a_) and b_ for a_, b_ in zip(sides, sides[1:])):
+                    out.append('%s: a buy was filled before a sell within one update: %s' % (w, [(g[1], g[0], g[3]) for g in got]))
                 if any(a[2] for a in snap[2]):
                     out.append('%s: orders still queued after an open update: %s' % (w, [a[2] for a in snap[2]]))
                 pending = {}
